@@ -6,6 +6,7 @@ package main
 import (
 	"fmt"
 	"go/constant"
+	"go/token"
 	"go/types"
 	"strings"
 
@@ -13,24 +14,24 @@ import (
 )
 
 const (
-	fnSQLSet       = "(*" + pSQL + ".writer).Set"
-	fnSQLClose     = "(*" + pSQL + ".writer).Close"
-	fnSQLWGet      = "(*" + pSQL + ".writer).GetLatest"
-	fnSQLRGet      = "(*" + pSQL + ".reader).GetLatest"
-	fnSQLWriteOps  = "(*" + pSQL + ".sqlLogPersistence).WriteOps"
-	fnSQLReadOps   = "(*" + pSQL + ".sqlLogPersistence).ReadOps"
-	fnSQLLogs      = "(*" + pSQL + ".sqlLogPersistence).Logs"
-	fnSQLInit      = "(*" + pSQL + ".sqlLogPersistence).Init"
-	fnMemWriteOps  = "(*" + pInmem + ".inMemoryPersistence).WriteOps"
-	fnMemReadOps   = "(*" + pInmem + ".inMemoryPersistence).ReadOps"
-	fnMemLogs      = "(*" + pInmem + ".inMemoryPersistence).Logs"
-	fnMemExpect    = "(*" + pInmem + ".inMemoryPersistence).expectAndWrite"
-	fnMemGet       = "(*" + pInmem + ".readWriter).GetLatest"
-	fnMemSet       = "(*" + pInmem + ".readWriter).Set"
-	fnMemClose     = "(*" + pInmem + ".readWriter).Close"
+	fnSQLSet        = "(*" + pSQL + ".writer).Set"
+	fnSQLClose      = "(*" + pSQL + ".writer).Close"
+	fnSQLWGet       = "(*" + pSQL + ".writer).GetLatest"
+	fnSQLRGet       = "(*" + pSQL + ".reader).GetLatest"
+	fnSQLWriteOps   = "(*" + pSQL + ".sqlLogPersistence).WriteOps"
+	fnSQLReadOps    = "(*" + pSQL + ".sqlLogPersistence).ReadOps"
+	fnSQLLogs       = "(*" + pSQL + ".sqlLogPersistence).Logs"
+	fnSQLInit       = "(*" + pSQL + ".sqlLogPersistence).Init"
+	fnMemWriteOps   = "(*" + pInmem + ".inMemoryPersistence).WriteOps"
+	fnMemReadOps    = "(*" + pInmem + ".inMemoryPersistence).ReadOps"
+	fnMemLogs       = "(*" + pInmem + ".inMemoryPersistence).Logs"
+	fnMemExpect     = "(*" + pInmem + ".inMemoryPersistence).expectAndWrite"
+	fnMemGet        = "(*" + pInmem + ".readWriter).GetLatest"
+	fnMemSet        = "(*" + pInmem + ".readWriter).Set"
+	fnMemClose      = "(*" + pInmem + ".readWriter).Close"
 	fnGetCheckpoint = "(*" + pWitness + ".Witness).GetCheckpoint"
-	fnGetLogs      = "(*" + pWitness + ".Witness).GetLogs"
-	fnWitnessNew   = pWitness + ".New"
+	fnGetLogs       = "(*" + pWitness + ".Witness).GetLogs"
+	fnWitnessNew    = pWitness + ".New"
 )
 
 type sumCacheKey struct {
@@ -389,6 +390,121 @@ func isSQLQuery(name string) bool {
 	return false
 }
 
+// sqlTextSSA resolves the text of an SQL statement argument when it is not a literal at the call: a concatenation of
+// literals with a configured identifier (a table name handed to the constructor; rendered as the identifier tbl_cfg), a
+// field that is assigned in exactly one place of the module (statements prepared once by the constructor and kept in a
+// struct), or a parameter for which every caller passes the same text.
+func sqlTextSSA(w *World, fn *ssa.Function, v ssa.Value, depth int) (string, bool) {
+	if depth > 8 {
+		return "", false
+	}
+	if t, ok := constString(v); ok {
+		return t, true
+	}
+	isStr := func(t types.Type) bool {
+		b, ok := t.Underlying().(*types.Basic)
+		return ok && b.Info()&types.IsString != 0
+	}
+	if !isStr(v.Type()) {
+		return "", false
+	}
+	switch x := v.(type) {
+	case *ssa.BinOp:
+		if x.Op != token.ADD {
+			return "", false
+		}
+		part := func(o ssa.Value) (string, bool) {
+			if t, ok := sqlTextSSA(w, fn, o, depth+1); ok {
+				return t, true
+			}
+			if _, isParam := o.(*ssa.Parameter); isParam {
+				return "tbl_cfg", true // an identifier handed in by configuration
+			}
+			return "", false
+		}
+		a, ok1 := part(x.X)
+		b, ok2 := part(x.Y)
+		return a + b, ok1 && ok2
+	case *ssa.UnOp:
+		fa, ok := x.X.(*ssa.FieldAddr)
+		if !ok {
+			return "", false
+		}
+		fv := fieldOfAddr(fa)
+		if fv == nil {
+			return "", false
+		}
+		var texts []string
+		for _, g := range w.prodFns() {
+			for _, b := range g.Blocks {
+				for _, in := range b.Instrs {
+					st, ok := in.(*ssa.Store)
+					if !ok {
+						continue
+					}
+					if sfa, ok := st.Addr.(*ssa.FieldAddr); ok && fieldOfAddr(sfa) == fv {
+						t, ok := sqlTextSSA(w, g, st.Val, depth+1)
+						if !ok {
+							return "", false
+						}
+						texts = append(texts, t)
+					}
+				}
+			}
+		}
+		texts = uniqStrings(texts)
+		if len(texts) == 1 {
+			return texts[0], true
+		}
+		return "", false
+	case *ssa.Parameter:
+		idx := -1
+		for i, p := range fn.Params {
+			if p == x {
+				idx = i
+			}
+		}
+		if idx < 0 {
+			return "", false
+		}
+		var texts []string
+		for _, g := range w.prodFns() {
+			for _, b := range g.Blocks {
+				for _, in := range b.Instrs {
+					c, ok := in.(ssa.CallInstruction)
+					if !ok || c.Common().StaticCallee() != fn || idx >= len(c.Common().Args) {
+						continue
+					}
+					t, ok := sqlTextSSA(w, g, c.Common().Args[idx], depth+1)
+					if !ok {
+						return "", false
+					}
+					texts = append(texts, t)
+				}
+			}
+		}
+		texts = uniqStrings(texts)
+		if len(texts) == 1 {
+			return texts[0], true
+		}
+		return "", false
+	case *ssa.Phi:
+		var texts []string
+		for _, e := range x.Edges {
+			t, ok := sqlTextSSA(w, fn, e, depth+1)
+			if !ok {
+				return "", false
+			}
+			texts = append(texts, t)
+		}
+		texts = uniqStrings(texts)
+		if len(texts) == 1 {
+			return texts[0], true
+		}
+	}
+	return "", false
+}
+
 func constString(v ssa.Value) (string, bool) {
 	if c, ok := v.(*ssa.Const); ok && c.Value != nil && c.Value.Kind() == constant.String {
 		return constant.StringVal(c.Value), true
@@ -406,7 +522,7 @@ func ruleSoleWriter(w *World, r *Run, rule string) {
 	// concrete write entry points: the stores' implementations of LogStateWriteOps.Set and LogStatePersistence.WriteOps/Init
 	implNames := map[string]string{}
 	writeEntry := map[string]bool{cSet: true, cWriteOps: true}
-	setRoots := map[string]map[*ssa.Function]bool{}  // per package
+	setRoots := map[string]map[*ssa.Function]bool{} // per package
 	initRoots := map[string]map[*ssa.Function]bool{}
 	for _, im := range []struct{ iface, meth string }{{"LogStateWriteOps", "Set"}, {"LogStatePersistence", "WriteOps"}, {"LogStatePersistence", "Init"}} {
 		m := ifaceMethod(w, pPersist, im.iface, im.meth)
@@ -525,7 +641,7 @@ func ruleSoleWriter(w *World, r *Run, rule string) {
 					var text string
 					okc := false
 					for _, a0 := range args {
-						if t, ok := constString(a0); ok {
+						if t, ok := sqlTextSSA(w, fn, a0, 0); ok {
 							text, okc = t, true
 							break
 						}
@@ -575,20 +691,20 @@ func upsertReplacesValue(u sqlStmt) bool {
 // ---------------------------------------------------------------- SQL tokenizer (constant statements of this repository)
 
 type sqlStmt struct {
-	verb        string
-	orReplace   bool
-	onConflict  bool
+	verb            string
+	orReplace       bool
+	onConflict      bool
 	conflictNothing bool
-	conflictSet [][2]string // ON CONFLICT … DO UPDATE SET column = value
-	ifNotExists bool
-	table       string
-	cols        []string // INSERT column list / SELECT projection / CREATE columns
-	pk          string   // CREATE: primary key column
-	whereCol    string
-	wherePH     bool
-	values      int // number of placeholders in VALUES
-	multi       bool
-	err         string
+	conflictSet     [][2]string // ON CONFLICT … DO UPDATE SET column = value
+	ifNotExists     bool
+	table           string
+	cols            []string // INSERT column list / SELECT projection / CREATE columns
+	pk              string   // CREATE: primary key column
+	whereCol        string
+	wherePH         bool
+	values          int // number of placeholders in VALUES
+	multi           bool
+	err             string
 }
 
 func sqlTokens(s string) []string {
@@ -838,7 +954,7 @@ func sqlSites(w *World) []sqlSite {
 					continue
 				}
 				for _, a0 := range args {
-					if t, ok := constString(a0); ok {
+					if t, ok := sqlTextSSA(w, fn, a0, 0); ok {
 						if name == "dyn" {
 							up := strings.ToUpper(strings.TrimSpace(t))
 							if !(strings.HasPrefix(up, "SELECT ") || strings.HasPrefix(up, "INSERT ") || strings.HasPrefix(up, "UPDATE ") || strings.HasPrefix(up, "DELETE ")) {
@@ -856,9 +972,6 @@ func sqlSites(w *World) []sqlSite {
 }
 
 // ---------------------------------------------------------------- C03.c STORAGE-REFUSAL, C06.a/b, C05.e
-
-
-
 
 // C06.b ONE-STATEMENT-IN-TX and writer/reader table agreement
 func ruleOneStatement(w *World, r *Run, rule string) {
@@ -925,9 +1038,6 @@ func ruleOneStatement(w *World, r *Run, rule string) {
 	ruleComposedSQL(w, r, rule)
 }
 
-
-
-
 // C04.d READ-VERBATIM
 func ruleReadVerbatim(w *World, r *Run, rule string) {
 	sums, _, ok := explore(w, r, rule, fnGetCheckpoint, 4, 1)
@@ -969,8 +1079,6 @@ func ruleReadVerbatim(w *World, r *Run, rule string) {
 }
 
 // ---------------------------------------------------------------- C07.c (storage layer), C07.d, C07.e
-
-
 
 // C07.e ADAPTER
 func ruleAdapter(w *World, r *Run, rule string) {
@@ -1034,13 +1142,9 @@ func ruleAdapter(w *World, r *Run, rule string) {
 
 // ---------------------------------------------------------------- C05.b LOCKSET, C05.c CAS, C05.d SNAPSHOT-PAIRING
 
-
 func ast_IsExported(n string) bool { return n != "" && n[0] >= 'A' && n[0] <= 'Z' }
 
 var snapshotEq = map[string]bool{"reflect.DeepEqual": true, "bytes.Equal": true}
-
-
-
 
 // C05.f GLOBALS
 func ruleGlobals(w *World, r *Run, rule string, pkgs []string) {
@@ -1099,8 +1203,6 @@ func ruleNoInplace(w *World, r *Run, a *updAnalysis, rule string) {
 	}
 }
 
-
-
 // adapterMethods: the omniwitness package's implementation of feeder.Witness (GetLatestCheckpoint, Update), whatever the
 // adapter type is called and whether its methods have value or pointer receivers.
 func adapterMethods(w *World) (getLatest, update string) {
@@ -1123,7 +1225,6 @@ func adapterMethods(w *World) (getLatest, update string) {
 	}
 	return pick("GetLatestCheckpoint"), pick("Update")
 }
-
 
 // canonPersistenceMethod names an invoked interface method after the persistence interface it narrows: a consumer-side
 // interface whose methods are a subset of LogStateWriteOps / LogStatePersistence calls the same Set / WriteOps.
